@@ -22,12 +22,13 @@ def scaled(sc, a):
     d = json.loads(json.dumps(sc))
     d["thickness"] = [t * a for t in d["thickness"]]
     d["frequency"] = d["frequency"] / a
-    for k in ("corr_length", "radius"):
+    for k in ("corr_length", "radius", "repeat_distance"):
         if k in d.get("micro", {}):
             d["micro"][k] = [v * a for v in d["micro"][k]]
     s = d.get("substrate")
-    if s and "roughness_rms" in s.get("params", {}):
-        s["params"]["roughness_rms"] *= a
+    for k in ("roughness_rms", "corr_length"):
+        if s and k in s.get("params", {}):
+            s["params"][k] *= a
     return d
 
 
@@ -141,7 +142,21 @@ ALL_EM = [("iba", "exponential"), ("iba", "sticky_hard_spheres"), ("iba_original
           ("rayleigh", "sticky_hard_spheres"), ("dmrt_qca_shortrange", "sticky_hard_spheres"), ("dmrt_qcacp_shortrange", "sticky_hard_spheres"),
           ("sce_torquato21", "exponential"), ("sce_torquato21", "sticky_hard_spheres"), ("symsce_torquato21", "exponential"),
           ("symsce_torquato21", "sticky_hard_spheres"), ("sce_torquato21_shortrange", "exponential"),
-          ("symsce_torquato21_shortrange", "exponential"), ("sce_rechtsman08", "exponential")]
+          ("symsce_torquato21_shortrange", "exponential"), ("sce_rechtsman08", "exponential"),
+          # a microstructure whose spectral form is computed numerically (FFT of the real-space form on a grid)
+          ("iba", "gaussian_random_field"), ("symsce_torquato21", "gaussian_random_field")]
+
+
+def rough_scene(rng, active):
+    """snow over a rough IEM soil with sub-millimetre to millimetre roughness: smoothness is governed by k*s, never by s alone"""
+    sc = const_scene(rng, "exponential", active=active, max_layers=2)
+    sc["frequency"] = float(rng.choice([18.7e9, 36.5e9]))
+    srms = float(np.exp(rng.uniform(np.log(3e-5), np.log(8e-4))))
+    sc["substrate"] = dict(kind="iem_fung92", T=265.0, eps=[round(float(rng.uniform(4, 15)), 3), round(float(rng.uniform(0.2, 3)), 3)],
+                           params=dict(roughness_rms=srms, corr_length=srms * float(rng.uniform(8, 20))))
+    sc["thickness"] = [round(float(v), 3) for v in rng.uniform(0.05, 0.4, len(sc["thickness"]))]
+    sc["emmodel"], sc["nmax"] = "iba", 16
+    return sc
 
 
 def oracle(ctx, hints, effort):
@@ -150,9 +165,12 @@ def oracle(ctx, hints, effort):
     # every scattering theory: ks*lambda, ka*lambda, eps_eff of scaled twins (no solver run), lengths straddling a wide range
     for it in range(len(ALL_EM) * (2 if effort == "routine" else 8)):
         em, ms = ALL_EM[it % len(ALL_EM)]
-        sc = const_scene(rng, ms, max_layers=3)
+        sc = const_scene(rng, ms if ms != "gaussian_random_field" else "exponential", max_layers=3)
         sc["emmodel"] = em
         k = len(sc["thickness"])
+        if ms == "gaussian_random_field":
+            cl = [round(float(np.exp(rng.uniform(np.log(5e-5), np.log(4e-4)))), 7) for _ in range(k)]
+            sc["microstructure"], sc["micro"] = ms, dict(corr_length=cl, repeat_distance=[round(c * float(rng.uniform(4, 12)), 7) for c in cl])
         if ms == "exponential":
             sc["micro"]["corr_length"] = [round(float(np.exp(rng.uniform(np.log(4e-5), np.log(5e-4)))), 7) for _ in range(k)]
         a = float(np.exp(rng.uniform(np.log(0.25), np.log(4.0))))
@@ -167,6 +185,24 @@ def oracle(ctx, hints, effort):
         if r:
             key = f"{r[0]}:{em}"
             findings.setdefault(key, Finding(key, f"scaled twin (a={a:.3f}) differs: {r[0]}", {"kind": "invariants", "scene": sc, "a": a, "em": em}, r[1], r[2]))
+    for it in range(4 if effort == "routine" else 24):
+        active = it % 2 == 1
+        sc = rough_scene(rng, active)
+        a = float(rng.choice([0.25, 0.5, 2.0, 4.0]))
+        try:
+            evals += 2
+            r = check_twin(sc, a, active)
+        except AssertionError:
+            continue
+        except Exception as e:  # noqa
+            from smrt.core.error import SMRTError
+            if isinstance(e, (SMRTError, Warning, NotImplementedError)):
+                continue
+            raise
+        if r:
+            key = f"{r[0]}:iem:{'active' if active else 'passive'}"
+            findings.setdefault(key, Finding(key, f"scaled twin (a={a}) of snow over a rough IEM soil differs: {r[0]}",
+                                             {"scene": sc, "a": a, "active": active}, r[1], r[2]))
     for it in range(6 if effort == "routine" else 24):
         active = it % 3 == 2
         sc = weak_scene(rng, active)
